@@ -46,6 +46,8 @@ bool Parser::parseTypeName(TypeNameSyntax*& typeName)
     SpecifierListSyntax* specList = nullptr;
     if (!parseSpecifierQualifierList(decl, specList))
         return false;
+    if (decl)
+        turnTagDeclarationIntoSpecifier(decl, specList);
 
     typeName = makeNode<TypeNameSyntax>();
     typeName->specs_ = specList;
